@@ -377,9 +377,12 @@ func compactCase(raw []byte) json.RawMessage {
 }
 
 func unpackOnce(base string, h *uHeader, g *arena.Gamma, c *uCase, w int, n int64) (*uObs, string) {
-	root, err := os.MkdirTemp(base, fmt.Sprintf("w%d-", w))
-	if err != nil {
-		return nil, "mkdtemp: " + err.Error()
+	// the arena of a worker is wiped and re-created under the same path for every case: what an earlier Unpack of
+	// the process saw at a path (a directory, say) says nothing about what is there now
+	root := filepath.Join(base, fmt.Sprintf("w%d", w))
+	arena.RemoveAll(root)
+	if err := os.Mkdir(root, 0700); err != nil {
+		return nil, "mkdir: " + err.Error()
 	}
 	defer arena.RemoveAll(root)
 	if err := g.Setup(root, h.FS0); err != nil {
@@ -451,6 +454,15 @@ func unpackOnce(base string, h *uHeader, g *arena.Gamma, c *uCase, w int, n int6
 	// Warm it up with an archive that holds an external link (so that every validation path runs).
 	if !relAllow {
 		warmUnpack(p, root)
+		// ... and once on a directory of the arena outside dst: a directory entry for that directory itself (other
+		// mode, other time) followed by an entry that makes the call fail before anything is applied or created
+		if ow := g.Abs(root, []string{"A", "w"}); !unpriv {
+			if fi, err := os.Lstat(ow); err == nil && fi.IsDir() {
+				tb0, _ := tarx.Tar([]tarx.Entry{{Name: "./", Type: '5', Mode: 0755, Mtime: arena.TimeOf(5).Unix()},
+					{Name: "zz", Type: '2', Mode: 0777, Link: "../../../outside"}}, tarx.USTAR)
+				p.Unpack(bytes.NewReader(tarx.GzipPlain(tb0)), ow)
+			}
+		}
 	}
 	if relAllow {
 		// ... and once inside the arena, one level above dst: a rejected external link, nothing is created
